@@ -676,6 +676,57 @@ def job_quota(tier, k, nchunks):
     return res
 
 
+# (c') an oversized LITERAL handed directly to a function (constants travel in a wrapper object until the
+# parameter type unwraps them: the quota applies to the value, not to the wrapper)
+LITERAL_CALLS = ["len('{s}')", "isString('{s}')", "'b' in '{s}'", "'{s}'.len()", "str('{s}')", "['{s}'].len()",
+                 "'{s}'.toUpper().len()", "'{s}' = 'b'", "len('{s}' + 'c')", "coalesce(null, '{s}').len()"]
+
+
+def run_text_under_quota(text, q):
+    ctx = tapped_context().create_child_context()
+    log = {'q': q, 'calls': 0, 'maxarg': 0, 'maxrep': 0, 'reps': 0, 'traced': 0, 'bad': []}
+    st = yq.parse(text, {'yaql.memoryQuota': q} if q else {})
+    _tapped['log'] = log
+    try:
+        obs = ('v', st.evaluate(context=ctx))
+    except Exception as e:
+        obs = ('e', type(e).__name__, str(e)[:120])
+    finally:
+        _tapped['log'] = None
+    return obs, log
+
+
+def job_quota_literals():
+    _safety()
+    res = Result()
+    for q in QUOTAS:
+        for n in (q // 2, q - 60, q + 60, 3 * q):      # own size of a str is 49 + n: two below, two above the quota
+            lit = 'a' * n
+            over = sys.getsizeof(lit) > q
+            for tmpl in LITERAL_CALLS:
+                text = tmpl.replace('{s}', lit)
+                case = {'kind': 'quota-literal', 'template': tmpl, 'n': n, 'q': q}
+                core.CURRENT_CASE[0] = case
+                res.case(('quota-literal', tmpl, n, q))
+                obs, log = run_text_under_quota(text, q)
+                res.evaluations += 1
+                res.transitions += log['calls']
+                res.nontrivial += 1
+                shown = tmpl.replace('{s}', 'a...(%d chars)' % n)
+                res.outcomes['quota literal %s -> %s' % ('over' if over else 'under', 'value' if obs[0] == 'v' else obs[1])] += 1
+                for key, sz, what in log['bad'][:1]:
+                    res.fail(key.replace('oversized-argument', 'oversized-literal-argument'), case,
+                             '%s with memoryQuota=%d: a %d byte literal was passed on to a function (%s)' % (shown, q, sz, what))
+                if over and obs[0] == 'v' and not log['bad'] and tmpl.startswith(("len(", "isString(", "str(")):
+                    res.fail('oversized-literal-argument accepted', case,
+                             '%s with memoryQuota=%d evaluated to %.40r instead of MemoryQuotaExceededException' % (shown, q, obs[1]))
+                if not over and obs[0] == 'e':
+                    res.fail('unexpected-error literal under quota error=%s' % obs[1], case,
+                             '%s with memoryQuota=%d raised %r' % (shown, q, obs))
+    res.sample({'kind': 'quota-literal', 'templates': LITERAL_CALLS[:3], 'quotas': QUOTAS})
+    return res
+
+
 # ---------------------------------------------------------------------------
 def jobs(tier, seed):
     out = []
@@ -689,6 +740,7 @@ def jobs(tier, seed):
     nq = 24 if tier == 'quick' else 48
     for k in range(nq):
         out.append(('quota-%02d' % k, 'job_quota', (tier, k, nq)))
+    out.append(('quota-literals', 'job_quota_literals', ()))
     return out
 
 
@@ -701,6 +753,11 @@ def finish(total, tier):
 
 def replay(case):
     k = case['kind']
+    if k == 'quota-literal':
+        text = case['template'].replace('{s}', 'a' * case['n'])
+        obs, log = run_text_under_quota(text, case['q'])
+        return {'observed': repr((obs[:2], log['bad'][:1])), 'expected': 'MemoryQuotaExceededException iff the literal is larger than the quota; never handed to a function when larger',
+                'ok': not log['bad'] and not (sys.getsizeof('a' * case['n']) > case['q'] and obs[0] == 'v' and case['template'].startswith(('len(', 'isString(', 'str(')))}
     if k == 'limit':
         obs = run_limit(case['text'], case['flavour'], case['n'])
         bad = judge_limit(case['text'], case['n'], obs)
